@@ -216,15 +216,7 @@ func RunStream(c *Ctx, cfg StreamCfg, handle func(w *Worker, sc StrCase, res *[s
 		vi, v := vi, v
 		c.Parallel("random-"+v.Name, cfg.Random, 2048, func(w *Worker, i int) {
 			r := w.R
-			var a spec.Assign
-			switch r.Intn(3) {
-			case 0:
-				a = gen.RandomAssign(r, v)
-			case 1:
-				a = gen.SparseAssign(r, v, 1, 4)
-			default:
-				a = gen.SparseAssign(r, v, 1+r.Intn(4), 5)
-			}
+			a := gen.MixedAssign(r, v)
 			if r.Intn(100) < cfg.ValidBias {
 				if r.Chance(1, 5) {
 					do(w, StrCase{v.Canonical(a), vi, "valid-canonical"})
